@@ -173,6 +173,35 @@ func checkC07(c *h.Check) {
 	}
 	cases = append(cases, lasso...)
 
+	// Family E: termination on incomplete programs: acyclic graphs (every node kind, one deviation) with each
+	// single item left out -- the planner must report the gap and stop, also when the gap lies behind a binding,
+	// a field selection or a struct provider.
+	var incomplete []*h.Case
+	for n := 2; n <= 3; n++ {
+		baseSpecs(n, 1, func(id string, mk func() *GraphSpec) {
+			g0 := mk()
+			g0.Build()
+			for k := 1; k <= g0.NItems; k++ {
+				g := mk()
+				g.Drop = k
+				prog, _ := g.Build()
+				cs := caseFromProgram(fmt.Sprintf("C07/incomplete/%s/drop=%d", id, k), prog, true, nil)
+				if c.NoteProgram(cs.Files) {
+					incomplete = append(incomplete, cs)
+				}
+			}
+		})
+	}
+	ires := c.JudgeAll(incomplete)
+	for _, r := range ires {
+		if r != nil && r.Root().Failed {
+			outcomes.inc("incomplete-rejected")
+		} else {
+			outcomes.inc("incomplete-accepted")
+		}
+	}
+	cases = append(cases, incomplete...)
+
 	// Family C: deterministic scaling families, each alone under a time cap.
 	scal := scalingCases(thorough)
 	rn := h.NewRunner(c.S)
@@ -203,7 +232,7 @@ func checkC07(c *h.Check) {
 	c.Coverage["traces_validated_against_impl"] = total
 	c.Coverage["evaluations"] = total
 	c.Coverage["distinct_nontrivial"] = c.DistinctPrograms()
-	c.Coverage["rule"] = "every labelled digraph (self-loops included) on <=3 nodes (thorough: 4) rendered as a Wire program; x placement (one named set / direct / one named set per node, so that a cycle exists only in the union / inline set) x one node re-typed as struct/field/binding edge; plus fan-lassos (chain of length 0..10 to a provider with 2-3 arguments, cycle through each argument position, closing at the fan node / chain start / chain middle); plus deterministic deep/wide scaling graphs. Distinct = distinct rendered source text. Non-trivial: all (each is a different graph)."
+	c.Coverage["rule"] = "every labelled digraph (self-loops included) on <=3 nodes (thorough: 4) rendered as a Wire program; x placement (one named set / direct / one named set per node, so that a cycle exists only in the union / inline set) x one node re-typed as struct/field/binding edge; plus fan-lassos (chain of length 0..10 to a provider with 2-3 arguments, cycle through each argument position, closing at the fan node / chain start / chain middle); plus incomplete acyclic programs (every single item of every accepted base on 2-3 nodes left out: the planner must report and stop); plus deterministic deep/wide scaling graphs. Distinct = distinct rendered source text. Non-trivial: all (each is a different graph)."
 	c.Coverage["outcomes"] = outcomes.summary()
 	c.Coverage["scaling_cases"] = len(scal)
 	if len(cases) > 0 {
